@@ -286,6 +286,8 @@ pub fn finish(args: &Args, meta: &CheckMeta, out: &Outcome, start: Instant) -> i
 
     let mut code = 0;
     let replay_dir = format!("{}/replays/{}", verif_dir(), meta.prop);
+    // replay files describe this run only
+    let _ = std::fs::remove_dir_all(&replay_dir);
     for v in &new_violations {
         let _ = std::fs::create_dir_all(&replay_dir);
         let path = format!("{}/{}.json", replay_dir, sanitize(&v.key));
